@@ -1,6 +1,7 @@
 package main
 
 import (
+	"bufio"
 	"fmt"
 	"io"
 	"math/rand"
@@ -114,4 +115,182 @@ func ioCorrespondence(r *Result, d *drv.Driver, seed int64, n int) {
 			r.find(Finding{Kind: "disagreement", What: "the io.ReadFull / io.LimitReader model differs from Go's", Input: c.line, Expect: replies[i], Actual: c.real})
 		}
 	}
+}
+
+// ioStackCorrespondence ties lean/KmipModel/IoStack.lean (the whole reader stack of the Decoder: bufio.Reader over
+// io.LimitReader over bufio.Reader … over the transport) to Go's own bufio / io: a chunked source, a random tower of
+// bufio.NewReaderSize / io.LimitReader layers pushed and popped the way nested decoders do, and random sequences of the
+// primitives the Decoder uses (io.ReadFull, ReadByte, io.CopyN into Discard, bare Read, read-to-the-end), compared step by step
+// on bytes and error classes.
+func ioStackCorrespondence(r *Result, d *drv.Driver, seed int64, n int) {
+	rng := rand.New(rand.NewSource(seed + 60606))
+	type tc struct{ line, real string }
+	var cases []tc
+	errName := func(err error) string {
+		if err == io.EOF {
+			return "eof"
+		}
+		return "other"
+	}
+	for i := 0; i < n; i++ {
+		nc := rng.Intn(10)
+		var chunks [][]byte
+		var parts []string
+		total := 0
+		for j := 0; j < nc; j++ {
+			l := []int{0, 0, 1, 2, 3, 5, 8, 13, 21, 40}[rng.Intn(10)]
+			if i%97 == 5 && j == 1 { // a long run of empty reads: around bufio's limit of 100
+				for z := 0; z < 97+rng.Intn(6); z++ {
+					chunks = append(chunks, []byte{})
+					parts = append(parts, "-")
+				}
+			}
+			b := make([]byte, l)
+			for x := range b {
+				b[x] = byte(rng.Intn(256))
+			}
+			chunks = append(chunks, b)
+			if l == 0 {
+				parts = append(parts, "-")
+			} else {
+				parts = append(parts, hx(b))
+			}
+			total += l
+		}
+		finName, fin := "eof", io.EOF
+		if rng.Intn(3) == 0 {
+			finName, fin = "ioerr", errInjectedIO
+		}
+		eager := rng.Intn(2) == 0
+		cs := "."
+		if len(parts) > 0 {
+			cs = strings.Join(parts, ";")
+		}
+		src := &chunkSrc{chunks: chunks, fin: fin, eager: eager}
+		readers := []io.Reader{src}
+		kinds := []byte{'s'}
+		var ops, outs []string
+		top := func() io.Reader { return readers[len(readers)-1] }
+		push := func(k byte, rd io.Reader) { readers = append(readers, rd); kinds = append(kinds, k) }
+		sizes := []int{16, 16, 17, 32, 64, 4096}
+		if rng.Intn(4) != 0 { // the Decoder's own bufio on a plain io.Reader
+			sz := sizes[rng.Intn(len(sizes))]
+			ops = append(ops, fmt.Sprintf("b%d", sz))
+			outs = append(outs, "b")
+			push('b', bufio.NewReaderSize(top(), sz))
+		}
+		nops := 2 + rng.Intn(10)
+		failed := false
+		for o := 0; o < nops && !failed; o++ {
+			switch x := rng.Intn(100); {
+			case x < 18: // a nested structure: limit reader + its own bufio
+				lim := rng.Intn(total + 6)
+				sz := sizes[rng.Intn(len(sizes))]
+				ops = append(ops, fmt.Sprintf("l%d", lim), fmt.Sprintf("b%d", sz))
+				outs = append(outs, "l", "b")
+				push('l', io.LimitReader(top(), int64(lim)))
+				push('b', bufio.NewReaderSize(top(), sz))
+			case x < 28:
+				if len(kinds) >= 3 && kinds[len(kinds)-1] == 'b' && kinds[len(kinds)-2] == 'l' {
+					ops = append(ops, "pop")
+					outs = append(outs, "pop")
+					readers, kinds = readers[:len(readers)-2], kinds[:len(kinds)-2]
+				}
+			case x < 55:
+				k := rng.Intn(total/2 + 6)
+				ops = append(ops, fmt.Sprintf("rf%d", k))
+				buf := make([]byte, k)
+				if _, err := io.ReadFull(top(), buf); err != nil {
+					outs = append(outs, "rf:err-"+errName(err))
+					failed = true
+				} else {
+					outs = append(outs, "rf:"+hxd(buf))
+				}
+			case x < 70:
+				if br, ok := top().(*bufio.Reader); ok {
+					ops = append(ops, "rb")
+					c, err := br.ReadByte()
+					if err != nil {
+						outs = append(outs, "rb:err-"+errName(err))
+						failed = true
+					} else {
+						outs = append(outs, "rb:"+hx([]byte{c}))
+					}
+				}
+			case x < 82:
+				k := 1 + rng.Intn(30)
+				if rng.Intn(5) == 0 {
+					k = 4096 + rng.Intn(10)
+				}
+				ops = append(ops, fmt.Sprintf("rd%d", k))
+				buf := make([]byte, k)
+				nn, err := top().Read(buf)
+				e := "nil"
+				if err != nil {
+					e = errName(err)
+				}
+				outs = append(outs, fmt.Sprintf("rd:%s:%s", hxd(buf[:nn]), e))
+			default:
+				k := rng.Intn(total/2 + 6)
+				ops = append(ops, fmt.Sprintf("sk%d", k))
+				if _, err := io.CopyN(io.Discard, top(), int64(k)); err != nil {
+					outs = append(outs, "sk:err-"+errName(err))
+					failed = true
+				} else {
+					outs = append(outs, "sk:ok")
+				}
+			}
+		}
+		if !failed {
+			for len(kinds) >= 1 {
+				ops = append(ops, "drain")
+				rest, err := io.ReadAll(top())
+				e := "eof"
+				if err != nil {
+					e = errName(err)
+				}
+				outs = append(outs, fmt.Sprintf("drain:%s:%s", hxd(rest), e))
+				if len(kinds) >= 3 && kinds[len(kinds)-1] == 'b' && kinds[len(kinds)-2] == 'l' && rng.Intn(2) == 0 {
+					ops = append(ops, "pop")
+					outs = append(outs, "pop")
+					readers, kinds = readers[:len(readers)-2], kinds[:len(kinds)-2]
+					continue
+				}
+				break
+			}
+		}
+		e := 0
+		if eager {
+			e = 1
+		}
+		cases = append(cases, tc{fmt.Sprintf("iostk %s %d %s %s", finName, e, cs, strings.Join(ops, ",")), "ok " + strings.Join(outs, " ")})
+	}
+	lines := make([]string, len(cases))
+	for i, c := range cases {
+		lines[i] = c.line
+	}
+	replies, err := d.AskAll(lines)
+	if err != nil {
+		r.find(Finding{Kind: "disagreement", What: "driver failure (iostk)", Input: err.Error()})
+		return
+	}
+	for i, c := range cases {
+		r.eval(c.line, true)
+		for _, tok := range strings.Fields(c.real)[1:] {
+			r.Stats["iostk-op:"+strings.SplitN(strings.SplitN(tok, ":", 2)[0], "-", 2)[0]]++
+			if strings.Contains(tok, "err-") {
+				r.Stats["iostk-fail:"+tok]++
+			}
+		}
+		if replies[i] != c.real {
+			r.find(Finding{Kind: "disagreement", What: "the reader-stack model (bufio / LimitReader / ReadFull / ReadByte / CopyN) differs from Go's", Input: c.line, Expect: replies[i], Actual: c.real})
+		}
+	}
+}
+
+func hxd(b []byte) string {
+	if len(b) == 0 {
+		return "-"
+	}
+	return hx(b)
 }
